@@ -127,6 +127,13 @@ func (c *Ctx) closureEnvArgs(cl *Closure, args []Val) []Val { return args }
 
 func (c *Ctx) doCallVals(st *State, fr *Frame, cc *ssa.CallCommon, instr ssa.Instruction, fnv Val, args []Val, k func(*State, Val)) {
 	pos := instr.Pos()
+	if fr.fc != nil && fr.inlineOf == "" {
+		k0 := k
+		k = func(st2 *State, v Val) {
+			c.afterCallClauses(st2, fr, cc, instr, v)
+			k0(st2, v)
+		}
+	}
 	if bi, ok := fnv.(*ssa.Builtin); ok {
 		c.atCallClauses(st, fr, cc, instr, fnv, args)
 		k(st, c.builtin(st, fr, bi, cc, args, pos))
@@ -620,6 +627,50 @@ func (c *Ctx) atCallClauses(st *State, fr *Frame, cc *ssa.CallCommon, instr ssa.
 			g = env.evalBool(cl.E)
 		}()
 		c.oblige(st, fr, "atcall", cl.Site, cl.Label, instr.Pos(), g, cl.Props, src)
+	}
+}
+
+// `after call X set G = E`: ghost assignment right after the call returned (E may mention result / result.N)
+func (c *Ctx) afterCallClauses(st *State, fr *Frame, cc *ssa.CallCommon, instr ssa.Instruction, v Val) {
+	site, ok := c.V.callSites(fr.fn)[instr]
+	if !ok {
+		return
+	}
+	for _, cl := range fr.fc.Clauses {
+		if cl.Kind != "aftercallset" {
+			continue
+		}
+		matched := false
+		for _, s := range site {
+			if cl.Site == s || (strings.HasSuffix(cl.Site, "#*") && strings.HasPrefix(s, strings.TrimSuffix(cl.Site, "*"))) {
+				matched = true
+			}
+		}
+		if !matched {
+			continue
+		}
+		g, ok := c.V.specs.Ghosts[cl.Label]
+		if !ok {
+			evalFail("after call set: unknown ghost variable %s", cl.Label)
+		}
+		env := c.envFor(st, fr, fr.entry)
+		var rts []Term
+		switch x := v.(type) {
+		case Tuple:
+			for _, e := range x {
+				rts = append(rts, c.valAsTerm(e))
+			}
+		case Unit:
+		default:
+			rts = append(rts, c.valAsTerm(v))
+		}
+		bindResults(env, cc.Signature(), rts)
+		val := env.eval(cl.E)
+		want := c.V.sortOfTypeName(g.Type)
+		if val.Sort != want {
+			evalFail("after call set %s: sort %s, want %s", cl.Label, val.Sort, want)
+		}
+		st.heap["G_"+g.Name] = val
 	}
 }
 
